@@ -51,3 +51,31 @@ Theorem C18_jpeg : forall inflate pre post t p h1 h2 w1 w2 more sos body fuel r,
   pulled inflate (jpeg_prog fuel) r <= length (jpeg_head items sos) + 4095.
 Proof. exact jpeg_pulled. Qed.
 Print Assumptions C18_jpeg.
+
+(* JPEG with a profile: chunks in any order, the frame header anywhere; the loader stops at the item that
+   completes "frame header seen and all n chunks seen" and leaves everything after it unread *)
+Theorem C18_jpeg_icc_stops_at_last_needed_item : forall inflate (P R : list jitem) (x : jitem) (n : nat) fr sos body fuel,
+  let jits := P ++ [x] ++ R in
+  let cs := chunks_of (P ++ [x]) in
+  1 <= n <= 255 ->
+  Permutation.Permutation (map cseq cs) (map N.of_nat (seq 1 n)) -> (forall c, In c cs -> ctotal c = N.of_nat n) ->
+  sofs_of (P ++ [x]) = [fr] -> (match x with JOther _ => False | _ => True end) ->
+  Forall jitem_ok jits -> Forall item_ok (map enc jits) -> seg_ok 0xda sos -> length jits < fuel ->
+  run_pure inflate (jpeg_prog fuel) (jpeg_file (map enc jits) sos body)
+  = (Ok {| md_format := JPEG; md_w := fst (fst fr); md_h := snd (fst fr); md_bits := snd fr;
+           md_icc := icc_of_buffer (spec cs n) |},
+     concat (map item_bytes (map enc R)) ++ seg_bytes 0xda sos ++ body).
+Proof. exact jpeg_icc_exit_point. Qed.
+Print Assumptions C18_jpeg_icc_stops_at_last_needed_item.
+
+Theorem C18_jpeg_icc : forall inflate (P R : list jitem) (x : jitem) (n : nat) fr sos body fuel r,
+  let jits := P ++ [x] ++ R in
+  let cs := chunks_of (P ++ [x]) in
+  1 <= n <= 255 ->
+  Permutation.Permutation (map cseq cs) (map N.of_nat (seq 1 n)) -> (forall c, In c cs -> ctotal c = N.of_nat n) ->
+  sofs_of (P ++ [x]) = [fr] -> (match x with JOther _ => False | _ => True end) ->
+  Forall jitem_ok jits -> Forall item_ok (map enc jits) -> seg_ok 0xda sos -> length jits < fuel ->
+  nofail r -> src_data r = jpeg_file (map enc jits) sos body ->
+  pulled inflate (jpeg_prog fuel) r <= length (jpeg_head_icc P x) + 4095.
+Proof. exact jpeg_icc_pulled. Qed.
+Print Assumptions C18_jpeg_icc.
